@@ -109,10 +109,28 @@ def appendix_seeded():
     return '\n'.join(out)
 
 
+def appendix_claims():
+    out = ['### Appendix E — what each check claims (from manifest.d/Cxx.json) and where its details are\n']
+    for p in props():
+        pid = p['id']
+        f = os.path.join(HERE, 'manifest.d', pid + '.json')
+        if not os.path.exists(f):
+            out.append('#### %s — %s\n\nNot claimed yet.\n' % (pid, p['title']))
+            continue
+        d = json.load(open(f))
+        doc = 'docs/%s.md' % pid
+        out.append('#### %s — %s\n' % (pid, p['title']))
+        out.append('*Claim.* %s\n' % d['level_text'])
+        out.append('*Trusted / residual.* %s\n' % d['level_note'])
+        if os.path.exists(os.path.join(HERE, doc)):
+            out.append('*Details* (model ↔ source map, theorem list, generators, mutation table, findings): `%s`.\n' % doc)
+    return '\n'.join(out)
+
+
 def main():
     path = os.path.join(HERE, 'DESIGN.md')
     body = open(path, encoding='utf-8').read()
-    gen = '\n\n'.join([BEGIN, appendix_theorems(), appendix_fixed(), appendix_known(), appendix_seeded(), END])
+    gen = '\n\n'.join([BEGIN, appendix_theorems(), appendix_fixed(), appendix_known(), appendix_seeded(), appendix_claims(), END])
     if BEGIN in body and END in body:
         body = body[:body.index(BEGIN)] + gen + body[body.index(END) + len(END):]
     else:
